@@ -225,12 +225,11 @@ def mkdirAll (m : MFS) (perm : Nat) : Nat → Path → MFS × Except Err Unit
 
 def accessMode (flag : Nat) : Nat := flag &&& 3
 
-/-- how written bytes combine with the existing content -/
-def applyWrite (flag : Nat) (old : String) (data : String) : String :=
+/-- how bytes written at file offset `off` combine with the existing content (ASCII contents:
+bytes = chars); with `O_APPEND` every write goes to the end -/
+def applyWrite (flag : Nat) (old : String) (off : Nat) (data : String) : String :=
   if hasFlag flag O_APPEND then old ++ data
-  else
-    -- overwrite from offset 0 (ASCII contents: bytes = chars)
-    data ++ String.ofList (old.toList.drop data.length)
+  else String.ofList (old.toList.take off ++ data.toList ++ old.toList.drop (off + data.length))
 
 /-- `os.OpenFile(p, flag, perm)`; the returned handle is the resolved key. -/
 def openFile (m : MFS) (p : Path) (flag perm : Nat) : MFS × Except Err Handle :=
@@ -257,13 +256,13 @@ def openFile (m : MFS) (p : Path) (flag perm : Nat) : MFS × Except Err Handle :
       let m' := (m.set k (some (.file "" { mode := mode, uid := 0, gid := gid, mtime := .fresh }))).touchDir parent
       (m', .ok { key := k, name := p, isDir := false, flag := flag })
 
-/-- `File.Write(data)` on a handle opened for writing -/
-def hwrite (m : MFS) (h : Handle) (data : String) : MFS × Except Err Unit :=
+/-- `File.Write(data)` at file offset `off` on a handle opened for writing -/
+def hwrite (m : MFS) (h : Handle) (off : Nat) (data : String) : MFS × Except Err Unit :=
   if accessMode h.flag = 0 then (m, .error .other)   -- EBADF
   else match m.get h.key with
     | some (.file c mt) =>
       if data.isEmpty then (m, .ok ())
-      else (m.set h.key (some (.file (applyWrite h.flag c data) { mt with mtime := .fresh })), .ok ())
+      else (m.set h.key (some (.file (applyWrite h.flag c off data) { mt with mtime := .fresh })), .ok ())
     | _ => (m, .error .other)
 
 /-- whole content behind a handle opened on a regular file -/
